@@ -1,6 +1,7 @@
 // unit `signature` — C14: active parameter = number of commas between the opening parenthesis and the cursor
 use vstd::prelude::*;
 use std::ops::Range;
+use std::ops::Deref;
 verus! {
 //@include shims.rs
 //@include types_error.rs
@@ -31,7 +32,6 @@ pub proof fn lemma_count_stable(tokens: Seq<Token>, index: int, from: int, to: i
 }
 
 //~assume the token slice handed to get_active_param is ordered by start offset (tiling of C06; lexer out of reach) and has fewer than u32::MAX tokens
-//~not_decided which call statement is found (find_call_stmt_in_stmt: closures/find_map), the label and parameter list (Display/format!), hover (async handler)
 //@extract lsp4spl/src/features/signature_help.rs :: fn get_active_param
 //@ ret r
 //@ sig
@@ -61,6 +61,154 @@ it:
                 proof { lemma_count_stable(tokens@, *index as int, it.index@ as int, tokens@.len() as int); }
 //@end
 
+// ---------- which call the cursor is in: find_call_stmt_in_stmt
+//@include types_ast.rs
+//@include inc_reference.rs
+//~assume Range<usize>::clone returns an equal range (assume_specification through vstd's `cloned`)
+pub assume_specification<Idx: Clone> [<Range<Idx> as Clone>::clone] (r: &Range<Idx>) -> (c: Range<Idx>)
+    ensures cloned(r.start, c.start), cloned(r.end, c.end);
+//@extract spl_frontend/src/ast.rs :: impl<T> AsRef<T> for Reference<T>
+//@ ret r fn as_ref
+//@ sig fn as_ref
+        ensures *r == self.reference,
+//@end
+pub open spec fn range_in(ts: Seq<Token>, r: Range<usize>) -> bool {
+    (r.start < r.end && r.end <= ts.len()) || (!(r.start < r.end) && r.end < ts.len())
+}
+pub open spec fn text_range_of(ts: Seq<Token>, r: Range<usize>) -> Range<usize> {
+    if r.start < r.end { ts[r.start as int].range.start..ts[r.end - 1].range.end } else { ts[r.end as int].range.end..ts[r.end as int].range.end }
+}
+pub trait ToRange {
+    spec fn range_spec(&self) -> Range<usize>;
+    fn to_range(&self) -> (r: Range<usize>)
+        ensures r == self.range_spec();
+}
+pub trait ToTextRange {
+    spec fn node_range(&self) -> Range<usize>;
+    fn to_text_range(&self, tokens: &[Token]) -> (r: Range<usize>)
+        requires range_in(tokens@, self.node_range()),
+        ensures r == text_range_of(tokens@, self.node_range());
+}
+//@extract spl_frontend/src/ast.rs :: impl ToRange for AstInfo
+//@ open
+    open spec fn range_spec(&self) -> Range<usize> { self.range }
+//@end
+//@extract spl_frontend/src/ast.rs :: impl ToTextRange for AstInfo
+//@ rewrite range_is_empty
+//@ open
+    open spec fn node_range(&self) -> Range<usize> { self.range }
+//@end
+//@extract spl_frontend/src/ast.rs :: derive ToTextRange :: struct CallStatement
+//@ open
+    open spec fn node_range(&self) -> Range<usize> { self.info.range }
+//@end
+//~assume &tokens[offset..] is the suffix of the slice from `offset` (RangeFrom indexing; panics iff offset > len)
+#[verifier::external_body]
+pub fn slice_from<'a>(tokens: &'a [Token], offset: usize) -> (r: &'a [Token])
+    requires offset <= tokens@.len(),
+    ensures r@ == tokens@.subrange(offset as int, tokens@.len() as int),
+{ &tokens[offset..] }
+/// the call statement (with the absolute position of the Reference it is relative to) whose text contains the cursor:
+/// statements are searched in source order, branches before else-branches
+pub open spec fn contains_cursor(c: CallStatement, index: usize, offset: usize, ts: Seq<Token>) -> bool {
+    let r = text_range_of(ts.subrange(offset as int, ts.len() as int), c.info.range);
+    r.start <= index < r.end
+}
+pub open spec fn call_at(s: Statement, index: usize, offset: usize, ts: Seq<Token>) -> Option<(CallStatement, usize)>
+    decreases s, 0nat
+{
+    match s {
+        Statement::Block(b) => call_in(b.statements, index, offset, ts, 0),
+        Statement::If(i) => match (match i.if_branch { Some(x) => call_at(x.reference, index, (offset + x.offset) as usize, ts), None => None }) {
+            Some(v) => Some(v),
+            None => match i.else_branch { Some(x) => call_at(x.reference, index, (offset + x.offset) as usize, ts), None => None },
+        },
+        Statement::While(w) => match w.statement { Some(x) => call_at(x.reference, index, (offset + x.offset) as usize, ts), None => None },
+        Statement::Call(c) => if contains_cursor(c, index, offset, ts) { Some((c, offset)) } else { None },
+        _ => None,
+    }
+}
+/// first statement from position `from` on that contains such a call
+pub open spec fn call_in(v: Vec<Reference<Statement>>, index: usize, offset: usize, ts: Seq<Token>, from: nat) -> Option<(CallStatement, usize)>
+    decreases v, v@.len() - from
+{
+    if from >= v@.len() { None } else {
+        match call_at(v@[from as int].reference, index, (offset + v@[from as int].offset) as usize, ts) {
+            Some(r) => Some(r),
+            None => call_in(v, index, offset, ts, from + 1),
+        }
+    }
+}
+/// every call statement below names existing tokens, and the accumulated offsets stay inside the token vector
+pub open spec fn calls_ok(s: Statement, offset: usize, ts: Seq<Token>) -> bool
+    decreases s, 0nat
+{
+    match s {
+        Statement::Block(b) => forall|i: int| 0 <= i < b.statements@.len() ==> offset + (#[trigger] b.statements@[i]).offset <= usize::MAX && calls_ok(b.statements@[i].reference, (offset + b.statements@[i].offset) as usize, ts),
+        Statement::If(i) => (match i.if_branch { Some(x) => offset + x.offset <= usize::MAX && calls_ok(x.reference, (offset + x.offset) as usize, ts), None => true })
+            && (match i.else_branch { Some(x) => offset + x.offset <= usize::MAX && calls_ok(x.reference, (offset + x.offset) as usize, ts), None => true }),
+        Statement::While(w) => match w.statement { Some(x) => offset + x.offset <= usize::MAX && calls_ok(x.reference, (offset + x.offset) as usize, ts), None => true },
+        Statement::Call(c) => offset <= ts.len() && range_in(ts.subrange(offset as int, ts.len() as int), c.info.range),
+        _ => true,
+    }
+}
+pub open spec fn same_call(r: Option<(&CallStatement, usize)>, want: Option<(CallStatement, usize)>) -> bool {
+    match (r, want) { (Some(a), Some(b)) => *a.0 == b.0 && a.1 == b.1, (None, None) => true, _ => false }
+}
+//~assume `xs.iter().find_map(f)` returns the first Some result of f over xs in order (std iterator semantics; R8)
+#[verifier::external_body]
+pub fn find_map_first<'a, F: Fn(&'a Reference<Statement>) -> Option<(&'a CallStatement, usize)>>(items: &'a Vec<Reference<Statement>>, f: F, Ghost(g): Ghost<spec_fn(Reference<Statement>) -> Option<(CallStatement, usize)>>) -> (r: Option<(&'a CallStatement, usize)>)
+    requires
+        forall|i: int| 0 <= i < items@.len() ==> call_requires(f, (&#[trigger] items@[i],)),
+        forall|i: int, out: Option<(&'a CallStatement, usize)>| 0 <= i < items@.len() && #[trigger] call_ensures(f, (&items@[i],), out) ==> same_call(out, g(items@[i])),
+    ensures same_call(r, first_some(items@, g, 0)),
+{ items.iter().find_map(f) }
+pub open spec fn first_some(items: Seq<Reference<Statement>>, g: spec_fn(Reference<Statement>) -> Option<(CallStatement, usize)>, from: nat) -> Option<(CallStatement, usize)>
+    decreases items.len() - from
+{
+    if from >= items.len() { None } else { match g(items[from as int]) { Some(r) => Some(r), None => first_some(items, g, from + 1) } }
+}
+//~assume `opt.iter().map(Box::as_ref).find_map(f)`: an Option yields at most one element
+pub fn option_find_map<'a, F: Fn(&'a Reference<Statement>) -> Option<(&'a CallStatement, usize)>>(opt: &'a Option<Box<Reference<Statement>>>, f: F) -> (r: Option<(&'a CallStatement, usize)>)
+    requires opt is Some ==> call_requires(f, (&*opt->0,)),
+    ensures match *opt { Some(b) => call_ensures(f, (&*b,), r), None => r is None },
+{ match opt { Some(b) => f(&**b), None => None } }
+pub proof fn lemma_first_some(v: Vec<Reference<Statement>>, index: usize, offset: usize, ts: Seq<Token>, g: spec_fn(Reference<Statement>) -> Option<(CallStatement, usize)>, from: nat)
+    requires from <= v@.len(), forall|s: Reference<Statement>| #[trigger] g(s) == call_at(s.reference, index, (offset + s.offset) as usize, ts),
+    ensures first_some(v@, g, from) == call_in(v, index, offset, ts, from), //# lemma_first_some
+    decreases v@.len() - from
+{ if from < v@.len() { lemma_first_some(v, index, offset, ts, g, from + 1); } }
+//@extract lsp4spl/src/features/signature_help.rs :: fn find_call_stmt_in_stmt
+//@ rewrite option_iter_find_map find_map_first or_else_inline slice_from range_contains
+//@ ret r
+//@ attr
+#[verifier::exec_allows_no_decreases_clause]
+//@ sig
+    requires calls_ok(*stmt, offset, tokens@),
+    ensures same_call(r, call_at(*stmt, *index, offset, tokens@)), //# find_call_stmt_in_stmt::the_call_containing_the_cursor
+//@ ret r fn get_in_option
+//@ attr fn get_in_option
+    #[verifier::exec_allows_no_decreases_clause]
+//@ sig fn get_in_option
+        requires opt is Some ==> offset + opt->0.offset <= usize::MAX && calls_ok(opt->0.reference, (offset + opt->0.offset) as usize, tokens@),
+        ensures same_call(r, match *opt { Some(x) => call_at(x.reference, *index, (offset + x.offset) as usize, tokens@), None => None }),
+//@ closure |r| nth 0 of 2 : &'a Reference<Statement>
+ -> (out: Option<(&'a CallStatement, usize)>)
+                requires offset + r.offset <= usize::MAX && calls_ok(r.reference, (offset + r.offset) as usize, tokens@),
+                ensures same_call(out, call_at(r.reference, *index, (offset + r.offset) as usize, tokens@)),
+//@ closure |r| nth 1 of 2 : &'a Reference<Statement>
+ -> (out: Option<(&'a CallStatement, usize)>)
+                requires offset + r.offset <= usize::MAX && calls_ok(r.reference, (offset + r.offset) as usize, tokens@),
+                ensures same_call(out, call_at(r.reference, *index, (offset + r.offset) as usize, tokens@)),
+//@ after_closure |r| nth 1 of 2
+, Ghost(|s: Reference<Statement>| call_at(s.reference, *index, (offset + s.offset) as usize, tokens@))
+//@ before "find_map_first(&b.statements"
+{ let r_ = 
+//@ before ",\n        If(i)"
+; proof { lemma_first_some(b.statements, *index, offset, tokens@, |s: Reference<Statement>| call_at(s.reference, *index, (offset + s.offset) as usize, tokens@), 0); } r_ }
+//@end
+
+//~not_decided the callee's declared signature and parameter list shown (Display / format!, symbol table lookup), which procedure contains the cursor (find_map over global declarations in the async handler), hover
 pub proof fn witness_signature() {
     let s: Seq<Token> = Seq::empty();
     assert(sorted_by_start(s));
